@@ -69,13 +69,29 @@ def parseTreeAux (pm : Bytes → Option Int) (shaLen : Nat) : Nat → Bytes → 
               | .ok es => .ok (⟨name, mode, hex⟩ :: es)
               | .error e => .error e
 
+/-- The strict mode token (code since 5d5709a, Python and Rust alike): `[0-7]+` with a value that fits `u32`. -/
+def strictOct (s : Bytes) : Option Nat :=
+  if s.isEmpty || !allOct s then none
+  else
+    let v := octVal s 0
+    if v ≤ OGen.treeModeMax then some v else none
+
+/-- Python's mode token: `_TREE_MODE_RE.fullmatch` + bound when `OGen.pyModeStrict`, else the older `int(token, 8)`. -/
+def pyModeToken (s : Bytes) : Option Int :=
+  if OGen.pyModeStrict then (strictOct s).map Int.ofNat else pyInt 8 s
+
+/-- Rust's mode token: a leading `+` is refused first when `OGen.rsRejectsPlus`; then `u32::from_str_radix(_, 8)`
+(`rsOctU32`, which on its own accepts one leading `+`). -/
+def rsModeToken (s : Bytes) : Option Int :=
+  if OGen.rsRejectsPlus then (strictOct s).map Int.ofNat else (rsOctU32 s).map Int.ofNat
+
 /-- pure-Python `parse_tree(text, sha_len)` (non-strict). -/
 def parseTreePy (shaLen : Nat) (text : Bytes) : Except Err (List Entry) :=
-  parseTreeAux (pyInt 8) shaLen text.length text
+  parseTreeAux pyModeToken shaLen text.length text
 
-/-- Rust `parse_tree(text, sha_len)` (non-strict).  The Rust code hexlifies without a length check. -/
+/-- Rust `parse_tree(text, sha_len)` (non-strict). -/
 def parseTreeRs (shaLen : Nat) (text : Bytes) : Except Err (List Entry) :=
-  parseTreeAux (fun s => (rsOctU32 s).map Int.ofNat) shaLen text.length text
+  parseTreeAux rsModeToken shaLen text.length text
 
 /-! ## ordering -/
 
@@ -115,18 +131,43 @@ def rsIsDir (m : Int) : Bool := (m.toNat / 4096) % 16 * 4096 == OGen.rsSIFDIR
 /-- `u8::cmp`. -/
 def cmpByte (u v : UInt8) : Ordering := if u < v then .lt else if v < u then .gt else .eq
 
-/-- The virtual byte after the end of a name: `/` for a directory, NUL otherwise. -/
+/-- The virtual byte after the end of a name in the OLD comparator: `/` for a directory, NUL otherwise. -/
 def rsTerm (m : Int) : UInt8 := if rsIsDir m then OGen.rsDirTerm else OGen.rsFileTerm
 
-/-- Rust `cmp_with_suffix` (git's `base_name_compare`): compare the common prefix, then one more
-byte where a name that has ended contributes `/` if it is a directory and NUL otherwise. -/
-def cmpWithSuffix : (ma : Int) → Bytes → (mb : Int) → Bytes → Ordering
+/-- Rust `cmp_with_suffix` as it was before 15beabf: compare the common prefix, then ONE more byte where a
+name that has ended contributes `/` if it is a directory and NUL otherwise. -/
+def cmpWithSuffixOld : (ma : Int) → Bytes → (mb : Int) → Bytes → Ordering
   | ma, [], mb, [] => cmpByte (rsTerm ma) (rsTerm mb)
   | ma, [], _, b :: _ => cmpByte (rsTerm ma) b
   | _, a :: _, mb, [] => cmpByte a (rsTerm mb)
-  | ma, a :: as, mb, b :: bs => if a < b then .lt else if b < a then .gt else cmpWithSuffix ma as mb bs
+  | ma, a :: as, mb, b :: bs => if a < b then .lt else if b < a then .gt else cmpWithSuffixOld ma as mb bs
+
+/-- `<[u8]>::cmp` / `Iterator::cmp`: lexicographic, a proper prefix is smaller. -/
+def cmpBytes : Bytes → Bytes → Ordering
+  | [], [] => .eq
+  | [], _ :: _ => .lt
+  | _ :: _, [] => .gt
+  | a :: as, b :: bs => if a < b then .lt else if b < a then .gt else cmpBytes as bs
+
+/-- the suffix slice of the new comparator: `b"/"` for a directory, `b""` otherwise -/
+def rsSuffix (m : Int) : Bytes := if rsIsDir m then OGen.rsDirSuffix else OGen.rsFileSuffix
+
+/-- Rust `cmp_with_suffix` since 15beabf: compare the common prefix (`len = min`), and if that is equal compare
+the rest of each name chained with its suffix slice. -/
+def cmpWithSuffixNew (ma : Int) (an : Bytes) (mb : Int) (bn : Bytes) : Ordering :=
+  let len := min an.length bn.length
+  match cmpBytes (an.take len) (bn.take len) with
+  | .eq => cmpBytes (an.drop len ++ rsSuffix ma) (bn.drop len ++ rsSuffix mb)
+  | c => c
+
+/-- Rust `cmp_with_suffix`, whichever of the two the source has now. -/
+def cmpWithSuffix (ma : Int) (an : Bytes) (mb : Int) (bn : Bytes) : Ordering :=
+  if OGen.rsCmpWhole then cmpWithSuffixNew ma an mb bn else cmpWithSuffixOld ma an mb bn
 
 def rsLe (a b : Entry) : Bool := cmpWithSuffix a.mode a.name b.mode b.name != .gt
+
+/-- the order of the old comparator (kept as a variant for the regression witnesses) -/
+def rsLeOld (a b : Entry) : Bool := cmpWithSuffixOld a.mode a.name b.mode b.name != .gt
 
 /-- Rust `sorted_tree_items(entries, false)`. -/
 def sortedTreeItemsRs (es : List Entry) : List Entry := sortBy rsLe es
@@ -148,11 +189,29 @@ def dictDel (d : List Entry) (name : Bytes) : Option (List Entry) :=
 /-- `{n: (m, s) for n, m, s in parsed}`. -/
 def dictOfList (es : List Entry) : List Entry := es.foldl dictSet []
 
+/-- every mode is in `0..treeModeMax` (what the Rust `sorted_tree_items` can extract as `u32`) -/
+def modesOk (es : List Entry) : Bool := es.all fun e => decide (0 ≤ e.mode) && decide (e.mode ≤ (OGen.treeModeMax : Int))
+
+/-- Python `sorted_tree_items` as a partial function: `.other` = `TypeError` for a mode outside `0..treeModeMax`
+(since 46c4930; before that `stat.S_ISDIR` raised `OverflowError` for the same modes in tree order). -/
+def sortedTreeItemsE (es : List Entry) : Except Err (List Entry) :=
+  if modesOk es then .ok (sortedTreeItems es) else .error .other
+
+/-- Rust `sorted_tree_items`: `.other` = `TypeError` when a mode does not extract as `u32`. -/
+def sortedTreeItemsRsE (es : List Entry) : Except Err (List Entry) :=
+  if modesOk es then .ok (sortedTreeItemsRs es) else .error .other
+
 /-- `Tree._serialize` (Python sort). -/
-def serializeTreeObj (entries : List Entry) : Except Err Bytes := serializeTree (sortedTreeItems entries)
+def serializeTreeObj (entries : List Entry) : Except Err Bytes :=
+  match sortedTreeItemsE entries with
+  | .ok es => serializeTree es
+  | .error e => .error e
 
 /-- `Tree._serialize` with the Rust `sorted_tree_items` loaded. -/
-def serializeTreeObjRs (entries : List Entry) : Except Err Bytes := serializeTree (sortedTreeItemsRs entries)
+def serializeTreeObjRs (entries : List Entry) : Except Err Bytes :=
+  match sortedTreeItemsRsE entries with
+  | .ok es => serializeTree es
+  | .error e => .error e
 
 /-- `Tree._deserialize`. -/
 def deserializeTreeObj (shaLen : Nat) (text : Bytes) : Except Err (List Entry) :=
